@@ -103,7 +103,9 @@ fn evaluate_expression<'data, P: Platform>(
             if divisor == 0 {
                 bail!("Division by zero in linker script expression");
             }
-            Ok(eval!(l)? / divisor)
+            // GNU ld divides as `bfd_signed_vma`: `(0 - 6) / 2` is -3, not 0x7fff_ffff_ffff_fffd.
+            // `wrapping_div` so that `i64::MIN / -1` cannot panic.
+            Ok((eval!(l)? as i64).wrapping_div(divisor as i64) as u64)
         }
 
         // Comparisons return 1 (true) or 0 (false)
